@@ -1,5 +1,39 @@
 package c12
 
-// corpus holds the minimal failing inputs of the known findings; it runs first in every tier so that each
-// listed finding is reached deterministically.
-var corpus = []Case{}
+// corpus holds minimal failing inputs of the known findings (findings.d/C12.jsonl); it runs first in every
+// tier so that each listed finding is reached deterministically even if a later phase is cut by the deadline.
+// Each entry is replayed through replayCase, i.e. evaluated on all routes and judged by the same oracle as
+// the enumerated cases; an entry that passes simply reports nothing.
+var corpus = []Case{
+	// carry out of the leading digit is written into the sign byte (fast/dtoa.go roundWeedCounted)
+	{Kind: "format", Bits: "c023333333333333", X: "-9.6", Op: opPrec, Arg: 1},
+	{Kind: "format", Bits: "c023333333333333", X: "-9.6", Op: opExp, Arg: 0},
+	// negative fraction with zero integer part loses its sign (ftobasestr.go)
+	{Kind: "format", Bits: "bfe0000000000000", X: "-0.5", Op: opRadix, Arg: 2},
+	{Kind: "format", Bits: "bfe0000000000000", X: "-0.5", Op: opRadix, Arg: 3},
+	// subnormals: wrong magnitude estimate in ftoa() (all subnormals) ...
+	{Kind: "format", Bits: "000fffffffffffff", X: "2.225073858507201e-308", Op: opPrec, Arg: 20},
+	{Kind: "format", Bits: "000fffffffffffff", X: "2.225073858507201e-308", Op: opExp, Arg: 19},
+	{Kind: "format", Bits: "00092fffffffffff", X: "1.2776791296896816e-308", Op: opString},
+	{Kind: "format", Bits: "00092fffffffffff", X: "1.2776791296896816e-308", Op: opExpU},
+	{Kind: "format", Bits: "00092fffffffffff", X: "1.2776791296896816e-308", Op: opRadix, Arg: 10},
+	{Kind: "format", Bits: "00092fffffffffff", X: "1.2776791296896816e-308", Op: opRoundTrip},
+	// ... and wrong bit count in d2b() for subnormals below 2^-1042: garbage digits, absurd exponents, runaway
+	{Kind: "format", Bits: "0000000000000003", X: "1.5e-323", Op: opExp, Arg: 18},
+	{Kind: "format", Bits: "0000000000000003", X: "1.5e-323", Op: opPrec, Arg: 19},
+	{Kind: "format", Bits: "00000000eb400f23", X: "1.95e-314", Op: opExp, Arg: 19},
+	{Kind: "format", Bits: "0000000078a42203", X: "9.99999999e-315", Op: opFixed, Arg: 0},
+	// parseInt accumulates in float64 beyond int64
+	{Kind: "parseInt", Str: "18446744073709553665", Arg: 10},           // 2^64+2049, 20 digits
+	{Kind: "parseInt", Str: "123456789012345678901234567890", Arg: 10}, // DESIGN.md Appendix A
+	{Kind: "parseInt", Str: "1000000000000000196608", Arg: 10},         // equals the 20-digit truncation
+	{Kind: "parseInt", Str: "1000000000000000000000000000000000000000000000000000010000000000100000", Arg: 2},
+	{Kind: "parseInt", Str: "100010202110111202020110202012022202010121001", Arg: 3},
+	// -0
+	{Kind: "parse", Str: "-0", Route: "parseInt(s)"},
+	{Kind: "parse", Str: "-00", Route: "Number(string)"},
+	// integer literals of other bases beyond int64
+	{Kind: "literalN", Str: "0x8000000000000401"},
+	{Kind: "literalN", Str: "0b10000000000000000000000000000000000000000000000000000000000000000"},
+	{Kind: "literalN", Str: "0o2000000000000000000000"},
+}
